@@ -1,6 +1,7 @@
 ------------------------------ MODULE MC_Stark ------------------------------
 EXTENDS Stark, Json
-Cfg(n, p, zk, prep, lk, pv) == [name |-> n, proto |-> p, zk |-> zk, prep |-> prep, lookups |-> lk, pubvals |-> pv]
+CfgP(n, p, zk, prep, lk, pv, cp, qp) == [name |-> n, proto |-> p, zk |-> zk, prep |-> prep, lookups |-> lk, pubvals |-> pv, cpow |-> cp, qpow |-> qp]
+Cfg(n, p, zk, prep, lk, pv) == CfgP(n, p, zk, prep, lk, pv, TRUE, TRUE)
 \* the configurations `p3r stark` can build (recursion/tests + circuit-prover set-ups)
 DriverConfigs == {
     Cfg("uni_fib_bb", "uni", FALSE, FALSE, FALSE, TRUE),
@@ -9,9 +10,12 @@ DriverConfigs == {
     Cfg("batch_two_airs_bb", "batch", FALSE, TRUE, FALSE, TRUE),
     Cfg("batch_lookups_bb", "tables", FALSE, TRUE, TRUE, FALSE),
     Cfg("batch_circuit_tables_kb", "tables", FALSE, TRUE, TRUE, FALSE),
-    Cfg("batch_fib_kb_zk", "batch", TRUE, FALSE, FALSE, TRUE)}
+    Cfg("batch_fib_kb_zk", "batch", TRUE, FALSE, FALSE, TRUE),
+    \* the same with unequal proof-of-work bits (commit 0, query 3)
+    CfgP("batch_fib_kb_zk_pow", "batch", TRUE, FALSE, FALSE, TRUE, FALSE, TRUE)}
 \* every feature combination (design check only; lookups need the batch verifier)
-AllConfigs == {Cfg("any", p, zk, prep, lk, pv) : p \in {"uni", "batch", "tables"}, zk \in BOOLEAN, prep \in BOOLEAN, lk \in BOOLEAN, pv \in BOOLEAN}
+AllConfigs == {CfgP("any", p, zk, prep, lk, pv, cp, qp) : p \in {"uni", "batch", "tables"}, zk \in BOOLEAN, prep \in BOOLEAN, lk \in BOOLEAN, pv \in BOOLEAN,
+                                                        cp \in BOOLEAN, qp \in BOOLEAN}
 DesignConfigs == {c \in AllConfigs : c.lookups => c.proto # "uni"}
 
 \* lists the code indexes or zips without validating them first (KNOWN_FINDINGS.json, C15); "fixed" ones are removed here
